@@ -2,6 +2,7 @@ package rules
 
 import (
 	"fmt"
+	"go/token"
 	"go/types"
 	"strings"
 
@@ -42,116 +43,107 @@ func c10r1(c *an.Ctx) {
 	ue := c.Fn("drpcwire", "UnmarshalError")
 	code := a.obj("drpcerr", "Code")
 	withCode := a.obj("drpcerr", "WithCode")
-	// encoder: either a [8]byte filled with BigEndian.PutUint64 and extended by append, or
-	// BigEndian.AppendUint64 onto an empty slice extended by append
-	var put *ssa.Call
-	appendForm := false
-	an.Instrs(me, func(in ssa.Instruction) {
-		if call, ok := in.(*ssa.Call); ok {
-			if obj := an.CalleeObj(call.Common()); obj != nil && strings.Contains(obj.FullName(), "bigEndian") {
-				switch obj.Name() {
-				case "PutUint64":
-					put = call
-				case "AppendUint64":
-					put, appendForm = call, true
-				}
-			}
-		}
-	})
-	okEnc := false
-	var arr ssa.Value
-	if put != nil && !appendForm {
-		if sl, ok := put.Common().Args[1].(*ssa.Slice); ok {
-			if al, ok := sl.X.(*ssa.Alloc); ok {
-				if at, ok := deref(al.Type()).Underlying().(*types.Array); ok && at.Len() == 8 {
-					arr = al
-				}
-			}
-		}
-		if cc, ok := put.Common().Args[2].(*ssa.Call); ok && an.IsCallTo(cc.Common(), code) && cc.Common().Args[0] == ssa.Value(me.Params[0]) {
-			okEnc = arr != nil
-		}
+	isBE := func(call *ssa.Call, name string) bool {
+		obj := an.CalleeObj(call.Common())
+		return obj != nil && obj.Name() == name && strings.Contains(obj.FullName(), "bigEndian")
 	}
-	if put != nil && appendForm {
-		base := put.Common().Args[1]
-		emptyBase := an.IsNilConst(base)
-		if sl, ok := base.(*ssa.Slice); ok && sl.High != nil {
-			if k, isK := an.ConstInt(sl.High); isK && k == 0 {
-				emptyBase = true
+	isCodeOfErr := func(v ssa.Value) bool {
+		cc, ok := an.Resolve(v).(*ssa.Call)
+		return ok && an.IsCallTo(cc.Common(), code) && an.Resolve(cc.Common().Args[0]) == ssa.Value(me.Params[0])
+	}
+	// encoder: the returned bytes are the concatenation [8 big-endian bytes of drpcerr.Code(err)] [err.Error()],
+	// however the concatenation is spelled (array + append, AppendUint64, a helper taking the pieces)
+	okEnc, okTxt := false, false
+	for _, rc := range an.ReturnCases(me) {
+		parts, ok := concatParts(rc.Vals[0], 0)
+		if !ok || len(parts) != 2 {
+			continue
+		}
+		// first part: a [8]byte filled by PutUint64(_, Code(err)), or the 8 bytes AppendUint64 produced
+		switch x := parts[0].(type) {
+		case *ssa.Alloc:
+			if at, isArr := deref(x.Type()).Underlying().(*types.Array); isArr && at.Len() == 8 {
+				an.Instrs(me, func(in ssa.Instruction) {
+					call, isCall := in.(*ssa.Call)
+					if !isCall || !isBE(call, "PutUint64") {
+						return
+					}
+					if sl, isSl := call.Common().Args[1].(*ssa.Slice); isSl && sl.X == ssa.Value(x) && isCodeOfErr(call.Common().Args[2]) && an.InstrDominates(call, rc.Ret) {
+						okEnc = true
+					}
+				})
+			}
+		case *ssa.Call:
+			if isBE(x, "AppendUint64") && isCodeOfErr(x.Common().Args[2]) {
+				okEnc = true
 			}
 		}
-		if cc, ok := put.Common().Args[2].(*ssa.Call); ok && an.IsCallTo(cc.Common(), code) && cc.Common().Args[0] == ssa.Value(me.Params[0]) {
-			okEnc = emptyBase
+		// second part: the text of the same error
+		if txt, isCall := an.Resolve(an.Unwrap(an.Resolve(parts[1]))).(*ssa.Call); isCall && txt.Common().IsInvoke() && txt.Common().Method.Name() == "Error" && an.Resolve(txt.Common().Value) == ssa.Value(me.Params[0]) {
+			okTxt = true
 		}
 	}
 	c.Check(okEnc, "MarshalError | 8-byte big-endian drpcerr.Code(err) into a [8]byte", c.P.Pos(me.Pos()), "", "the error's code is not encoded as 8 big-endian bytes of drpcerr.Code of the same error")
-	okTxt := false
-	for _, ret := range an.Returns(me) {
-		if call, ok := ret.Results[0].(*ssa.Call); ok {
-			if b, isB := call.Common().Value.(*ssa.Builtin); isB && b.Name() == "append" {
-				txt, isCall := call.Common().Args[1].(*ssa.Call)
-				if !isCall || !txt.Common().IsInvoke() || txt.Common().Method.Name() != "Error" || txt.Common().Value != ssa.Value(me.Params[0]) || put == nil {
-					continue
-				}
-				if appendForm {
-					if an.Resolve(call.Common().Args[0]) == ssa.Value(put) {
-						okTxt = true
-					}
-					continue
-				}
-				base, isSl := call.Common().Args[0].(*ssa.Slice)
-				if isSl && base.X == arr && base.Low == nil && base.High == nil && an.InstrDominates(put, call) {
-					okTxt = true
-				}
-			}
-		}
-	}
-	c.Check(okTxt, "MarshalError | returns code bytes followed by err.Error()", c.P.Pos(me.Pos()), "", "the encoded error is not <8 code bytes><message text of the same error>")
+	c.Check(okEnc && okTxt, "MarshalError | returns code bytes followed by err.Error()", c.P.Pos(me.Pos()), "", "the encoded error is not <8 code bytes><message text of the same error>")
 	// decoder
 	data := ue.Params[0]
-	var u64 *ssa.Call
-	an.Instrs(ue, func(in ssa.Instruction) {
-		if call, ok := in.(*ssa.Call); ok {
-			if obj := an.CalleeObj(call.Common()); obj != nil && obj.Name() == "Uint64" && strings.Contains(obj.FullName(), "bigEndian") {
-				u64 = call
-			}
+	isSliceOfData := func(v ssa.Value, at *ssa.BasicBlock, lo, hi int64) bool {
+		v = an.ResolveAt(v, at)
+		if cv, ok := v.(*ssa.Convert); ok {
+			v = an.ResolveAt(cv.X, at)
 		}
-	})
-	okDec := false
-	if u64 != nil {
-		if sl, ok := u64.Common().Args[1].(*ssa.Slice); ok && sl.X == ssa.Value(data) && sl.Low == nil {
-			if hi, isC := an.ConstInt(sl.High); isC && hi == 8 {
+		sl, ok := v.(*ssa.Slice)
+		if !ok || an.Resolve(sl.X) != ssa.Value(data) {
+			return false
+		}
+		if lo >= 0 {
+			k, isK := an.ConstInt(sl.Low)
+			if sl.Low == nil || !isK || k != lo {
+				return false
+			}
+		} else if sl.Low != nil {
+			return false
+		}
+		if hi >= 0 {
+			k, isK := an.ConstInt(sl.High)
+			if sl.High == nil || !isK || k != hi {
+				return false
+			}
+		} else if sl.High != nil {
+			return false
+		}
+		return true
+	}
+	okDec, okWith, okText, okGuard := false, false, false, false
+	for _, cs := range an.CallsTo(ue, false, withCode) {
+		blk := cs.Instr.Block()
+		if u64, ok := an.ResolveAt(an.Arg(cs.Common(), 1), blk).(*ssa.Call); ok && isBE(u64, "Uint64") {
+			okWith = true
+			if isSliceOfData(u64.Common().Args[1], blk, -1, 8) {
 				okDec = true
 			}
 		}
-	}
-	c.Check(okDec, "UnmarshalError | code = big-endian uint64 of data[:8]", c.P.Pos(ue.Pos()), "", "the decoder does not read the code from the first 8 bytes")
-	okWith, okText, okGuard := false, false, false
-	for _, cs := range an.CallsTo(ue, false, withCode) {
-		if an.Arg(cs.Common(), 1) == ssa.Value(u64) {
-			okWith = true
-		}
-		if e, ok := an.Arg(cs.Common(), 0).(*ssa.Call); ok && errsNewLike(e.Common()) {
+		if e, ok := an.ResolveAt(an.Arg(cs.Common(), 0), blk).(*ssa.Call); ok && errsNewLike(e.Common()) {
 			fmtArg := e.Common().Args[0]
 			if cst, isC := fmtArg.(*ssa.Const); isC && cst.Value != nil && strings.Trim(cst.Value.ExactString(), "\"") == "%s" {
 				// the single variadic argument is data[8:]
 				for _, v := range variadicArgs(e.Common().Args[len(e.Common().Args)-1]) {
-					if sl, ok := an.Unwrap(v).(*ssa.Slice); ok && sl.X == ssa.Value(data) && sl.High == nil {
-						if lo, isL := an.ConstInt(sl.Low); isL && lo == 8 {
-							okText = true
-						}
+					if isSliceOfData(an.Unwrap(v), blk, 8, -1) {
+						okText = true
 					}
 				}
 			}
 		}
-		for _, g := range an.GuardsOf(cs.Instr.Block()) {
-			if b, ok := g.Cond.(*ssa.BinOp); ok && !g.True && b.Op.String() == "<" {
-				if k, isC := an.ConstInt(b.Y); isC && k == 8 && lenOperand(b.X) == ssa.Value(data) {
-					okGuard = true
-				}
+		for _, g := range an.GuardsOf(blk) {
+			if cmp, ok := an.CmpOf(g); ok && cmp.Is(token.GEQ, func(v ssa.Value) bool { return lenOperand(v) != nil && an.Resolve(lenOperand(v)) == ssa.Value(data) }, func(v ssa.Value) bool {
+				k, isC := an.ConstInt(v)
+				return isC && k == 8
+			}) {
+				okGuard = true
 			}
 		}
 	}
+	c.Check(okDec, "UnmarshalError | code = big-endian uint64 of data[:8]", c.P.Pos(ue.Pos()), "", "the decoder does not read the code from the first 8 bytes")
 	c.Check(okWith, "UnmarshalError | decoded code attached with drpcerr.WithCode", c.P.Pos(ue.Pos()), "", "the decoded code is not attached to the returned error")
 	c.Check(okText, "UnmarshalError | message = data[8:] passed as the argument of a constant \"%s\" format", c.P.Pos(ue.Pos()), "", "the peer's error text is not reproduced verbatim (wrong offset, or it is used as a format string so that '%' sequences are mangled)")
 	c.Check(okGuard, "UnmarshalError | split guarded by len(data) >= 8", c.P.Pos(ue.Pos()), "", "the 8-byte split is not behind the length guard")
